@@ -63,6 +63,10 @@ int main() {
         std::string o1 = capture([] { masa_display_param(); }), o2 = capture([] { masa_display_param<double>(); }); n++; if (o1 != o2) printf("BAD masa_display_param on %s: C and C++ print different text\n", sol.c_str());
         std::vector<std::string> pn; { std::istringstream ps(o2); std::string line; while (std::getline(ps, line)) { size_t p = line.find(" is set to:"); if (p != std::string::npos) pn.push_back(line.substr(0, p)); } }
         int k = 0;
+        // (one name buffer re-used for every C call, read with one name and written with the next)
+        { static char NB[300]; for (size_t q = 0; q + 1 < pn.size() && q < 6; q++) { strcpy(NB, pn[q].c_str()); double g0 = masa_get_param(NB); (void)g0; strcpy(NB, pn[q + 1].c_str()); double before = masa_get_param<double>(pn[q]); masa_set_param(NB, 6.125 + q); n++;
+            if (masa_get_param<double>(pn[q + 1]) != 6.125 + q || masa_get_param<double>(pn[q]) != before) printf("BAD masa_set_param through a re-used name buffer on %s: after get(%s), set(%s) wrote the wrong parameter\n", sol.c_str(), pn[q].c_str(), pn[q + 1].c_str()); }
+          capture([] { masa_init_param<double>(); }); }
         for (auto& p : pn) { double a = masa_get_param(p.c_str()), b = masa_get_param<double>(p); n++; if (memcmp(&a, &b, 8)) printf("BAD masa_get_param(%s) on %s: C %.17g C++ %.17g\n", p.c_str(), sol.c_str(), a, b);
           double v = 0.5 + 0.25 * (++k); masa_set_param(p.c_str(), v); double c = masa_get_param<double>(p); n++; if (c != v) printf("BAD masa_set_param(%s) on %s: C++ reads %.17g after the C call set %.17g\n", p.c_str(), sol.c_str(), c, v); }
         o1 = capture([] { masa_display_array(); }); o2 = capture([] { masa_display_vec<double>(); }); n++; if (o1 != o2) printf("BAD masa_display_array on %s differs from masa_display_vec<double>\n", sol.c_str());
